@@ -6,6 +6,8 @@ Cases
       = normalised mean of the corner normals (zero / geometric when none stored), read-back mesh
   sr  a well-formed record list -> independent encoder -> stl.ReadMesh -> stl.WriteMesh -> parser;
       judged: the mesh read is the records, writing it again reproduces them
+  sz  sizes only, for large triangle counts (around multiples of 32768 / 65536): the size law and the
+      triangle count, mesh -> file -> mesh and records -> mesh -> file
   sb  a well-formed record list -> independent encoder -> stl.Read -> stl.Write -> parser (the record
       level API); judged: the records come back exactly (normals bit for bit, attribute words), twice
 Sources: StlGen (TLC BFS: every index pattern / every short record list; -simulate for more
@@ -28,14 +30,11 @@ PREDICATES = ["C07.WriteOk", "C07.SizeLaw", "C07.RecPositions", "C07.RecNormal",
               "C07.ReadOk", "C07.RtCount", "C07.RtPositions", "C07.RtNormal", "C07.RtNormal.mean", "C07.RtNormal.none",
               "C07.RdCount", "C07.RdPositions", "C07.RdNormal", "C07.RdNormal.mixed",
               "C07.RwOk", "C07.RwSize", "C07.RwPositions", "C07.RwNormal", "C07.RwNormal.mixed", "C07.RwAttr",
+              "C07.SizeLaw.large", "C07.RtCount.large", "C07.RdCount.large", "C07.RwSize.large",
               "C07.BinReadOk", "C07.BinRecords", "C07.BinRecords.attr", "C07.BinWriteOk", "C07.BinSize", "C07.BinRewrite"]
 
-# quick tier: size profiles up to this weight (triangles) always run, heavier ones by rotation class
-QUICK_ALWAYS_W = 1100
-
-
 def _key(c):
-    return json.dumps({k: c.get(k) for k in ("k", "mesh", "gen", "seeded")}, sort_keys=True)
+    return json.dumps({k: c.get(k) for k in ("k", "dir", "mesh", "gen", "seeded")}, sort_keys=True)
 
 
 def _as_sb(c):
@@ -90,8 +89,7 @@ def collect_cases(ctx, vh):
     notes["random_cases"] = len(rnd)
     cases += rnd
     # size profiles (round 2): counts around multiples of round numbers
-    r, sized, nprof = sized_profiles(ctx, "ObjStlSizesStlQuick.cfg" if tier == "quick" else "ObjStlSizesStlBig.cfg",
-                                     QUICK_ALWAYS_W)
+    r, sized, nprof = sized_profiles(ctx, "ObjStlSizesStlQuick.cfg" if tier == "quick" else "ObjStlSizesStlBig.cfg")
     notes["size_profiles_enumerated"] = nprof
     notes["size_profiles_run"] = len(sized)
     notes["size_profile_triangle_counts"] = sorted({c["seeded"]["ntris"] for c in sized})
@@ -123,7 +121,7 @@ def execute_and_judge(ctx, vh, cases, name="main", keep=None):
 
 def signature(f, case):
     p = f["pred"].split(".", 1)[1]
-    if case["k"] == "sw":
+    if case["k"] == "sw" or (case["k"] == "sz" and case["dir"] == "w"):
         op = "WriteMesh" if p in ("WriteOk", "SizeLaw", "RecPositions", "RecNormal") else "WriteMesh+ReadMesh"
     elif case["k"] == "sb":
         op = "Read" if p in ("BinReadOk", "BinRecords") else "Read+Write"
@@ -148,10 +146,10 @@ def nontrivial(case):
 def selftest(ctx, raw):
     """Binding self-test: corrupt one logged field of accepted lines; TLC must reject each."""
     want = {"sw-size": None, "sw-rec": None, "sw-normal": None, "sw-rd": None, "sr-rd": None, "sr-f2": None,
-            "sb-attr": None, "sb-f2": None}
+            "sb-attr": None, "sb-f2": None, "sz-size": None, "sz-count": None}
     for ln in raw:
         o = json.loads(ln)
-        if o["k"] == "sw" and o["werr"] == "" and o["rerr"] == "" and len(o["f"]["recs"]) >= 2:
+        if o["k"] == "sw" and o["werr"] == "" and o["rerr"] == "" and 2 <= len(o["f"]["recs"]) <= 300:
             if want["sw-size"] is None:
                 c = json.loads(ln)
                 c["f"]["nbytes"] += 2                       # two stray bytes
@@ -172,7 +170,7 @@ def selftest(ctx, raw):
                 c = json.loads(ln)
                 c["rd"]["idx"] = c["rd"]["idx"][:-3]           # a triangle missing after reading back
                 want["sw-rd"] = (c, "C07.RtCount")
-        if o["k"] == "sr" and o["rerr"] == "" and o["werr"] == "" and len(o["gen"]) >= 2:
+        if o["k"] == "sr" and o["rerr"] == "" and o["werr"] == "" and 2 <= len(o["gen"]) <= 300:
             if want["sr-rd"] is None:
                 c = json.loads(ln)
                 p = c["rd"]["pos"][c["rd"]["idx"][1]]
@@ -182,6 +180,16 @@ def selftest(ctx, raw):
                 c = json.loads(ln)
                 c["f2"]["count"] -= 1                       # count field disagrees with the records
                 want["sr-f2"] = (c, "C07.RwSize")
+        if o["k"] == "sz" and o["rerr"] == "" and o["werr"] == "":
+            if want["sz-size"] is None and o["dir"] == "w":
+                c = json.loads(ln)
+                c["f"]["nbytes"] -= 50                      # one record short, the count field still says n
+                c["f"]["nrecs"] -= 1
+                want["sz-size"] = (c, "C07.SizeLaw")
+            if want["sz-count"] is None and o["dir"] == "r":
+                c = json.loads(ln)
+                c["rdn"] -= 65536                           # a 16 bit counter wrapped
+                want["sz-count"] = (c, "C07.RdCount")
         if o["k"] == "sb" and o["rerr"] == "" and o["werr"] == "" and len(o["gen"]) >= 1:
             if want["sb-attr"] is None:
                 c = json.loads(ln)
@@ -214,21 +222,24 @@ def run_family(ctx, prefix="C07"):
     ctx.extra.update(notes)
     ctx.extra["exercised"] = {k: ex.get(k, 0) for k in PREDICATES}
     ctx.extra["non_finite_normal_written_for_degenerate_zero_normal_record"] = ex.get("note.nonFiniteNormalWritten", 0)
-    ctx.extra["cases_by_kind"] = {k: sum(1 for c in cases if c["k"] == k) for k in ("sw", "sr", "sb")}
-    ctx.extra["max_triangles"] = max([c["seeded"]["ntris"] for c in cases if c.get("seeded")] + [0])
+    ctx.extra["cases_by_kind"] = {k: sum(1 for c in cases if c["k"] == k) for k in ("sw", "sr", "sb", "sz")}
+    ctx.extra["max_triangles"] = max([c["seeded"]["ntris"] for c in cases if c.get("seeded") and c["k"] != "sz"] + [0])
+    ctx.extra["max_triangles_sizes_only"] = max([c["seeded"]["ntris"] for c in cases if c["k"] == "sz"] + [0])
     ctx.extra["cases_by_reader_variant"] = {str(m): sum(1 for c in cases if c["io"] == m) for m in sorted(set(READER_ROT))}
     ctx.extra["cases_by_writer_variant"] = {str(m): sum(1 for c in cases if c["wio"] == m) for m in sorted(set(WRITER_ROT))}
     ctx.nontrivial = sum(1 for c in cases if nontrivial(c))
     ctx.rule = ("cases: TLC BFS of StlGen (every index pattern of <=2 triangles over 3,4%s vertices, with/without normals; "
                 "every list of <=%d records from 6 templates, through ReadMesh/WriteMesh and through Read/Write), TLC "
                 "-simulate walks (4 triangles), seeded recorder (arbitrary floats incl. float32 boundary values, up to %d "
-                "triangles), TLC-enumerated size profiles (counts m*T-1, m*T, m*T+1 up to %d triangles%s); every case "
+                "triangles), TLC-enumerated size profiles (counts m*T-1, m*T, m*T+1 up to %d triangles%s; up to %d triangles "
+                "judged on the size law and the triangle count only); every case "
                 "with one of 12 reader and 4 writer variants; distinct by mesh / record list; non-trivial: >=1 triangle "
                 "and a non-identity index pattern, or >=1 record"
                 % ("" if ctx.tier == "quick" else ",5", 3 if ctx.tier == "quick" else 5,
                    max([c["seeded"]["ntris"] for c in cases if c.get("tag") == "random"] + [0]),
                    ctx.extra["max_triangles"],
-                   ", the heavier ones rotating with the seed" if ctx.tier == "quick" else ""))
+                   ", the heavier ones rotating with the seed" if ctx.tier == "quick" else "",
+                   ctx.extra["max_triangles_sizes_only"]))
     for c in (cases[5], cases[-1]):
         ctx.sample({"k": c["k"], "tag": c.get("tag"),
                     "shape": c.get("seeded") or (c["mesh"]["idx"] if c["k"] == "sw" else [r["n"] for r in c["gen"]])})
